@@ -28,7 +28,7 @@ Definition frk (f : fetcher) : nat :=
   | FInit => 4 | FFetching => 4 | FOffsets => 5 end.
 Definition krk (k : call) : nat :=
   match k_ph k with
-  | PDone _ => 0 | PCWait (Some _) => 1 | PCWait None => 2 | PCSelect => 3 | PFSelect _ => 4 | PFLock => 5
+  | PDone _ => 0 | PCWait (Some _) => 1 | PCWait None => 2 | PCSelect => 3 | PCCheck => 4 | PFSelect _ => 5 | PFLock => 6
   | PTAwait => 1 | PTReady => 2 end.
 Definition rrk (r : rphase) : nat :=
   match r with
@@ -63,7 +63,7 @@ Definition mu (s : state) : nat :=
 Lemma reply_krk : forall c ok s, sumf krk (calls (reply c ok s)) <= sumf krk (calls s).
 Proof.
   intros. unfold reply. destruct (nth_error (calls s) c) eqn:E; [|apply le_n].
-  destruct (k_ph c0) as [| | |[rp|]| | |] eqn:P; try apply le_n.
+  destruct (k_ph c0) as [| | | |[rp|]| | |] eqn:P; try apply le_n.
   unfold set_call. cbn. pose proof (sumf_upd _ krk _ _ (mkCall (k_kind c0) (k_ctx c0) (PCWait (Some ok))) _ E) as U.
   assert (R1 : krk c0 = 2) by (unfold krk; rewrite P; reflexivity).
   change (krk (mkCall (k_kind c0) (k_ctx c0) (PCWait (Some ok)))) with 1 in U. lia.
@@ -77,7 +77,8 @@ Lemma stopping_step : forall s l s', stopping s = true -> step s l = Some s' -> 
 Proof.
   intros s l s' H St. unfold stopping in *. apply andb_true_iff in H as [H H3]. apply andb_true_iff in H as [H1 H2].
   destruct l; step_inv St; unf; try rewrite reply_all_calls_only; rewrite ?H1; cbn; rewrite ?H1, ?H2, ?H3; try reflexivity;
-  destr_goal; cbn; rewrite ?H1, ?H2, ?H3; try reflexivity; congruence.
+  destr_goal; cbn; rewrite ?H1, ?H2, ?H3; try reflexivity; try congruence;
+  repeat match goal with E : closed _ = true |- _ => rewrite E; revert E end; intros; reflexivity.
 Qed.
 
 Ltac rank_facts :=
@@ -133,6 +134,15 @@ Proof.
     rank_facts;
     unfold mu; unf; try rewrite reply_all_calls_only; rewrite ?H1; destr_goal; cbn; rw_fields; cbn;
     upd_facts; rewrite ?sumf_app, ?app_length; cbn in *; try lia; destr_goal; cbn in *; try lia; try (destruct reply; lia).
+  - (* LCClosed *) step_inv St;
+    unfold progress, is_race, call_ctx, f_cancelled, fcancelled, fn_gen_done in Pr; cbn in Pr;
+    rewrite ?H2, ?H3, ?orb_true_r in Pr; try discriminate;
+    repeat match goal with E : nth_error _ _ = Some _ |- _ => rewrite E in Pr end;
+    rewrite ?H2, ?H3, ?orb_true_r in Pr; cbn in Pr; try discriminate;
+    rank_facts;
+    unfold mu; unf; try rewrite reply_all_calls_only; rewrite ?H1; destr_goal; cbn; rw_fields; cbn;
+    upd_facts; rewrite ?sumf_app, ?app_length; cbn in *; try lia; destr_goal; cbn in *; try lia;
+    try (match goal with R : context [match ?x with _ => _ end] |- _ => destruct x; lia end).
   - (* LGClose *) step_inv St;
     unfold progress, is_race, call_ctx, f_cancelled, fcancelled, fn_gen_done in Pr; cbn in Pr;
     rewrite ?H2, ?H3, ?orb_true_r in Pr; try discriminate;
